@@ -50,6 +50,15 @@ def analyse(obs: Obs, prog):
         obs.add(props | {"C11"}, "TRACE-LENGTH", inst + "/length", f.get("dim_length") == length, derived=f.get("dim_length"), expected=show(length), where=where)
         return f
 
+    # ---------------------------------------------------------------- the mapped length
+    evl = Evaluator(prog)
+    rl = evl.eval_fn(V.methods["_static_broadcast_dim_length"], V.module, V)
+    t = rl.ret
+    okl = is_t(t, "proj") and t[2] == 0 and is_call(t[1], "tree_leaves") and is_t(t[1][2][0], "treemap") and t[1][2][0][2][1] == P("args")
+    if okl:
+        body = t[1][2][0][1]
+        okl = is_t(body, "phi") and mentions_any(body[2], lambda x: is_t(x, "attr") and x[2] == "shape") and mentions(body[2], ("leaf", P("args"))) and body[3] == C(None)
+    obs.add({"C11", "C01"}, "TRACE-LENGTH", "Vmap._static_broadcast_dim_length", okl, derived=t, expected="first non-None of tree_map(axis, x -> x.shape[axis] if axis is not None else None, in_axes, args)", where=W(V, "_static_broadcast_dim_length"))
     # ---------------------------------------------------------------- accessors
     r = ev.eval_fn(VT.methods["get_retval"], VT.module, VT)
     obs.add({"C11", "C01"}, "TRACE-ACCESSOR", "VmapTrace.get_retval", r.ret == retval_of(("attr", SELF, "inner")), derived=r.ret, expected="self.inner.get_retval() (stacked element returns)", where=W(VT, "get_retval"))
@@ -156,6 +165,11 @@ def analyse(obs: Obs, prog):
             if pol and is_t(c, "isinst") and c[1] == P("edit_request"):
                 acc.add(c[2])
     obs.add({"C06", "C11"}, "REQ-ACCEPT", "Vmap.edit", acc == {"Update", "IndexRequest"}, derived=str(sorted(acc)), expected="Update, IndexRequest", where=W(V, "edit"))
+    from .common import dispatch_roles
+    ev_d = Evaluator(prog)
+    ev_d.opaque_methods |= {"edit_choice_map", "edit_index"}
+    r_d = ev_d.eval_fn(V.methods["edit"], V.module, V)
+    dispatch_roles(obs, {"C05", "C11", "C06"}, "Vmap", r_d, {"Update": ["constraint"], "IndexRequest": ["idx", "request"]}, W(V, "edit"))
     obs.add({"C06"}, "REQ-EXHAUSTIVE", "Vmap.edit", len(r.raises) >= 1, derived=f"{len(r.raises)} raising arm(s)", expected="default arm raises", where=W(V, "edit"))
     for conds, t in arms_of(r):
         kind = [c[2] for c, pol in conds if pol and is_t(c, "isinst")]
